@@ -361,7 +361,7 @@ fn db_init_file_layout() {
 
 // ---- C10-Ob4: a free list that spans more than one page (overflow run) is reloaded completely on open
 // (profile set32: the sorted-set model holds 32 entries there)
-// @ob props=C10,C02 tier=quick cap=900 mem=8 profile=set32 native=no fns=DBInner::open,DBInner::meta,Freelist::init,Page::freelist,Page::from_buf bound="concrete (one execution): 256-byte pages, free-list page 2 with 30 ids (2-page run: 40 + 240 bytes), both headers name it" unwind=35
+// @ob props=C10,C02 tier=quick cap=600 profile=set32 native=no mem=6 fns=DBInner::open,DBInner::meta,Freelist::init,Page::freelist,Page::from_buf bound="concrete (one execution): 256-byte pages, free-list page 2 with 30 ids (2-page run: 40 + 240 bytes), both headers name it" unwind=35
 #[kani::proof]
 #[kani::unwind(35)]
 fn db_open_reloads_long_freelist() {
